@@ -307,6 +307,10 @@ func exec(line string) (res result) {
 		return execProbe(line, rest[0])
 	case op == "upd" && len(rest) == 4:
 		return execUpd(line, rest[0], rest[1], rest[2], rest[3])
+	case op == "updrec" && len(rest) == 3:
+		return execUpdRec(line, rest[0], rest[1], rest[2])
+	case op == "offconst" && len(rest) == 1:
+		return execOffConst(line, rest[0])
 	case op == "qry" && len(rest) == 3:
 		return execQry(line, rest[0], rest[1], rest[2])
 	case op == "qryrec" && len(rest) == 2:
@@ -747,6 +751,98 @@ func execGetLvl2(line, files string) (res result) {
 	return res
 }
 
+// constants the source defines as unsafe.Offsetof(<var>.<Field>): the compiled value, and the member the
+// name says it addresses (this association is the harness's own reading of the constant's name).
+var offConsts = map[string]struct {
+	typ, field string
+	val        uintptr
+}{
+	"BOARD_HEADER_BRDNAME_OFFSET":     {"BoardHeaderRaw", "Brdname", ptttype.BOARD_HEADER_BRDNAME_OFFSET},
+	"BOARD_HEADER_TITLE_OFFSET":       {"BoardHeaderRaw", "Title", ptttype.BOARD_HEADER_TITLE_OFFSET},
+	"BOARD_HEADER_BRD_ATTR_OFFSET":    {"BoardHeaderRaw", "BrdAttr", ptttype.BOARD_HEADER_BRD_ATTR_OFFSET},
+	"BOARD_HEADER_NEXT_OFFSET":        {"BoardHeaderRaw", "Next", ptttype.BOARD_HEADER_NEXT_OFFSET},
+	"BOARD_HEADER_FIRST_CHILD_OFFSET": {"BoardHeaderRaw", "FirstChild", ptttype.BOARD_HEADER_FIRST_CHILD_OFFSET},
+	"BOARD_HEADER_PARENT_OFFSET":      {"BoardHeaderRaw", "Parent", ptttype.BOARD_HEADER_PARENT_OFFSET},
+	"BOARD_HEADER_CHILD_COUNT_OFFSET": {"BoardHeaderRaw", "ChildCount", ptttype.BOARD_HEADER_CHILD_COUNT_OFFSET},
+	"BOARD_HEADER_BM_OFFSET":          {"BoardHeaderRaw", "BM", ptttype.BOARD_HEADER_BM_OFFSET},
+	"BOARD_HEADER_NUSER_OFFSET":       {"BoardHeaderRaw", "NUser", ptttype.BOARD_HEADER_NUSER_OFFSET},
+	"USER_INFO_USER_ID_OFFSET":        {"UserInfoRaw", "UserID", ptttype.USER_INFO_USER_ID_OFFSET},
+	"USER_INFO_PID_OFFSET":            {"UserInfoRaw", "Pid", ptttype.USER_INFO_PID_OFFSET},
+	"USER_INFO_MODE_OFFSET":           {"UserInfoRaw", "Mode", ptttype.USER_INFO_MODE_OFFSET},
+}
+
+func execOffConst(line, name string) (res result) {
+	res.line = line
+	oc, ok := offConsts[name]
+	if !ok {
+		return result{line: line, out: "none", label: "offconst:none"}
+	}
+	res.out = fmt.Sprintf("%s.%s=%d", oc.typ, oc.field, oc.val)
+	res.label = "offconst"
+	if fz, ok := frozenFieldOf(oc.typ, oc.field); !ok || fz.off != int(oc.val) {
+		res.fails = append(res.fails, fail{"layout:" + oc.typ + "." + oc.field,
+			fmt.Sprintf("%s = %d, pttbbs has %s at %d", name, oc.val, oc.field, fz.off)})
+	}
+	return res
+}
+
+// updrec: cmbbs.PasswdUpdate, the whole-record writer.
+func execUpdRec(line, uids, recs, files string) (res result) {
+	res.line = line
+	uid, ok1 := uidOf(uids)
+	rec, ok2 := unhex(recs)
+	file, ok3 := unhex(files)
+	if !ok1 || !ok2 || !ok3 {
+		return bad(line)
+	}
+	cls := slotClass(uid, len(file))
+	res.label = "updrec:" + cls
+	key := "frame:cmbbs.PasswdUpdate"
+	u := &ptttype.UserecRaw{}
+	if len(rec) != binSize(reflect.TypeOf(*u)) {
+		return result{line: line, out: "ERR", label: "updrec:reclen"}
+	}
+	if err := binary.Read(bytes.NewReader(rec), binary.LittleEndian, u); err != nil {
+		panic(err)
+	}
+	putFile(passwdPath(), file)
+	err := cmbbs.PasswdUpdate(uid, u)
+	after := getFile(passwdPath())
+	if err != nil {
+		res.out = "ERR"
+		if !bytes.Equal(after, file) || uid.IsValid() {
+			res.fails = append(res.fails, fail{key, fmt.Sprintf("uid %d: call failed (%v); valid=%v, file changed=%v", uid, err, uid.IsValid(), !bytes.Equal(after, file))})
+		}
+		return res
+	}
+	res.out = hx.Hex(after)
+	if !uid.IsValid() {
+		res.fails = append(res.fails, fail{key, fmt.Sprintf("uid %d is not a valid uid but the call succeeded", uid)})
+		return res
+	}
+	stride := documentedSize["UserecRaw"]
+	lo, hi := (int(uid)-1)*stride, int(uid)*stride
+	wantLen := len(file)
+	if hi > wantLen {
+		wantLen = hi
+	}
+	if len(after) != wantLen {
+		res.fails = append(res.fails, fail{key, fmt.Sprintf("uid %d: file length %d -> %d, expected %d", uid, len(file), len(after), wantLen)})
+		return res
+	}
+	for i := range after {
+		var old byte
+		if i < len(file) {
+			old = file[i]
+		}
+		if (i >= lo && i < hi && after[i] != rec[i-lo]) || ((i < lo || i >= hi) && after[i] != old) {
+			res.fails = append(res.fails, fail{key, fmt.Sprintf("uid %d: byte %d is %02x after the call; only record %d = [%d,%d) may change, to the record written", uid, i, after[i], uid, lo, hi)})
+			break
+		}
+	}
+	return res
+}
+
 // probe: black-box measurement of the stride and the field range an accessor uses.
 func execProbe(line, fn string) (res result) {
 	res.line = line
@@ -872,7 +968,11 @@ func execProbe(line, fn string) (res result) {
 		if in.stride != "" {
 			ws = fmt.Sprint(documentedSize[in.typ])
 		}
-		if w := fmt.Sprintf("stride=%s offs=%s", ws, strings.Join(want, ",")); w != res.out {
+		wo := strings.Join(want, ",")
+		if wo == "" {
+			wo = "-"
+		}
+		if w := fmt.Sprintf("stride=%s offs=%s", ws, wo); w != res.out {
 			res.fails = append(res.fails, fail{"seek:" + fn, fmt.Sprintf("measured %s, the pttbbs layout requires %s", res.out, w)})
 		}
 	}
@@ -1060,6 +1160,15 @@ func main() {
 	for _, k := range names {
 		do(fmt.Sprintf("const %s %s", c, k), true)
 	}
+	ocNames := make([]string, 0, len(offConsts))
+	for k := range offConsts {
+		ocNames = append(ocNames, k)
+	}
+	sort.Strings(ocNames)
+	for _, k := range ocNames {
+		do(fmt.Sprintf("offconst %s %s", c, k), true)
+	}
+	do(fmt.Sprintf("offconst %s NO_SUCH_OFFSET", c), false)
 	for ti := range recTypes {
 		t := &recTypes[ti]
 		do(fmt.Sprintf("size %s %s", c, t.name), true)
@@ -1077,7 +1186,7 @@ func main() {
 	// ---- images: Go writes / pttbbs reads, pttbbs writes / Go reads ---------------------
 	rounds := 1
 	if run.Thorough() {
-		rounds = 6
+		rounds = 12
 	}
 	for round := 0; round < rounds; round++ {
 		for ti := range recTypes {
@@ -1128,6 +1237,7 @@ func main() {
 					do(fmt.Sprintf("qry %s %s %d %s", c, fn, uid, hx.Hex(passwdImage(nrec, tail))), true)
 				}
 				do(fmt.Sprintf("qryrec %s %d %s", c, uid, hx.Hex(passwdImage(nrec, tail))), true)
+				do(fmt.Sprintf("updrec %s %d %s %s", c, uid, hx.Hex(passwdImage(1, 0)), hx.Hex(passwdImage(nrec, tail))), true)
 			}
 		}
 		for _, uid := range invalid {
@@ -1157,7 +1267,7 @@ func main() {
 	}
 	nRand := 60
 	if run.Thorough() {
-		nRand = 1500
+		nRand = 6000
 	}
 	for k := 0; k < nRand; k++ {
 		nrec := 1 + r.Intn(6)
@@ -1177,7 +1287,7 @@ func main() {
 	// ---- .PASSWD2 ------------------------------------------------------------------------------
 	nL2 := 12
 	if run.Thorough() {
-		nL2 = 200
+		nL2 = 600
 	}
 	for k := 0; k < nL2; k++ {
 		perm := r.U64() & 0xffffffff
@@ -1212,7 +1322,8 @@ func main() {
 		"upd " + c + " cmbbs.PasswdUpdatePasswd one 0102 00", "upd " + c + " cmbbs.PasswdUpdatePasswd 1 0102 00",
 		"upd " + c + " cmbbs.NoSuch 1 " + strings.Repeat("11", 14) + " 00", "upd " + c + " cmbbs.PasswdUpdateEmail 1 00 00 00",
 		"qry " + c + " cmbbs.NoSuch 1 00", "qry " + c + " cmbbs.PasswdQueryPasswd 1 0g", "qry " + c + " cmbbs.PasswdQueryPasswd",
-		"qryrec " + c + " 1", "lvl2 " + c + " 0 1 2 0 absent", "lvl2 " + c + " 0 x 1 0 absent", "lvl2 " + c + " 0 1 1 0 xyz",
+		"qryrec " + c + " 1", "updrec " + c + " 1 00 00", "updrec " + c + " 0 " + strings.Repeat("00", 512) + " 00", "updrec " + c + " 1 0 0",
+		"lvl2 " + c + " 0 1 2 0 absent", "lvl2 " + c + " 0 x 1 0 absent", "lvl2 " + c + " 0 1 1 0 xyz",
 		"getlvl2 " + c + " 0", "xread " + c + " NoSuchType 0 00", "xread " + c + " UserecRaw 0 0", "xread " + c + " UserecRaw 999 00",
 		"xover " + c + " UserInfoRaw 999 00", "xwrite " + c + " UserecRaw 0 00000000", "xwrite " + c + " UserecRaw 999 00 512",
 		"xwrite " + c + " NoSuchType 0 00 1", "xwrite " + c + " UserecRaw 0 00000000 -5",
@@ -1220,7 +1331,7 @@ func main() {
 		do(l, false)
 	}
 	for k := 0; k < 40; k++ {
-		ops := []string{"size", "const", "field", "probe", "upd", "qry", "qryrec", "lvl2", "getlvl2", "xread", "xover", "xwrite", "nop"}
+		ops := []string{"size", "const", "field", "probe", "upd", "updrec", "offconst", "qry", "qryrec", "lvl2", "getlvl2", "xread", "xover", "xwrite", "nop"}
 		n := r.Intn(6)
 		ws := []string{ops[r.Intn(len(ops))], []string{c, c, c, other, ""}[r.Intn(5)]}
 		for j := 0; j < n; j++ {
